@@ -366,7 +366,12 @@ class Check:
     def _replay(self, path: str, tier: str) -> int:
         setup_repo_path()
         data = json.loads(Path(path).read_text())
-        r = self._run_one(data["case"], data.get("tier", tier))
+        case = data["case"]
+        wit = data.get("witness") or {}
+        if isinstance(case, dict) and isinstance(wit, dict) and wit.get("schedule") is not None:
+            # scheduled checks: re-run exactly the witness schedule instead of re-exploring the shard
+            case = dict(case, _replay_schedule=wit["schedule"])
+        r = self._run_one(case, data.get("tier", tier))
         for v in r.viol:
             print(f"VIOLATION property={self.pid} replay={path}")
             print(f"  signature={v['sig']} {v['msg']}")
